@@ -63,7 +63,7 @@ WALKS = [
     ("odg", X + "open_office/odg_extractor.py", "_extract_full_text", "drawing_root", s_odf.odg_drawing, frozenset(), "read_odg"),
     ("ods", X + "open_office/ods_extractor.py", "_extract_cell_value", "cell", s_odf.ods_cell, frozenset(), "read_ods"),
     ("pptx", X + "ms_modern/pptx_extractor.py", "_extract_text_from_paragraphs", "elem", s_pptx.txbody, frozenset(), "read_pptx"),
-    ("pptx-slide", X + "ms_modern/pptx_extractor.py", "_process_slide_from_context", "root", s_pptx.slide, frozenset({"formulas", "images", "comments"}), "read_pptx"),
+    ("pptx-slide", X + "ms_modern/pptx_extractor.py", "_process_slide_from_context", ("call", "get_slide_root"), s_pptx.slide, frozenset({"formulas", "images", "comments"}), "read_pptx"),
 ]
 WALKS.append(("html", X + "html_extractor.py", "_HtmlTextExtractor._process_node", "node", s_html.body_schema, frozenset({"tables", "<discarded>"}), "read_html"))
 DICT_NODES = {"html"}  # the HTML tree builder's nodes are dicts {"tag", "children", "text", "tail"}
@@ -95,6 +95,21 @@ def run_walk(ctx: Ctx, rep: RuleReport, rule: str, label, rel, entry, param, sch
     fi = ctx.p.maybe_func(rel, entry)
     if fi is None:
         raise AnalysisError(f"{rule}: walker entry {rel}::{entry} vanished")
+    if isinstance(param, tuple):
+        # the node is a local of the entry function, identified by what it is assigned from (not by its spelling)
+        kind, what = param
+        cands = []
+        for n in walk_own(fi.node):
+            if isinstance(n, ast.Assign) and len(n.targets) == 1 and isinstance(n.targets[0], ast.Name):
+                v = n.value
+                if kind == "attr" and isinstance(v, ast.Attribute) and v.attr == what:
+                    cands.append(n.targets[0].id)
+                if kind == "call" and isinstance(v, ast.Call) and (dotted(v.func) or "").split(".")[-1] == what:
+                    cands.append(n.targets[0].id)
+        if len(set(cands)) != 1:
+            raise AnalysisError(f"{rule}: cannot find the root node of {entry} (a local assigned from .{what}): {cands}")
+        param = cands[0]
+        local_root = True
     if param not in [a.arg for a in fi.node.args.args] and not (local_root and any(isinstance(n, ast.Name) and n.id == param and isinstance(n.ctx, ast.Store) for n in ast.walk(fi.node))):
         raise AnalysisError(f"{rule}: {entry} no longer has the node parameter '{param}'")
     root = ctx.p.maybe_func(rel, caller)
